@@ -353,6 +353,45 @@ def work_multi_entry(chunk, st):
     st.sample({'targets_file': [spellings('name', h, p)[-1][1] if ':' not in h else h for h, p in chunk[0][0]], 'p': chunk[0][1]}, cap=8)
 
 
+# ---- two workers, every completion order: each JSON element - report or error - carries the label of the target it is about
+def work_label_schedules(chunk, st):
+    from mc import sched
+    from props import multitarget as MT
+    import json as _json
+    for archs, threads in chunk:
+        def once(prefix):
+            res, s = MT.run_multi(list(archs), threads, 'json', prefix, ('connect', 'resolve'))
+            return (res, s), s.points
+        n = 0
+        for prefix, (res, s), _points in sched.explore_schedules(once, 1, 400):
+            n += 1
+            order = tuple(l[0] for l in s.completion_order)
+            root = ('label-schedule', archs, threads, tuple(prefix))
+            st.execution(res.world, outcome=('label-schedule', res.status, order), root=root, nontrivial=('label-schedule', archs, threads, order))
+            d = {'targets': list(archs), 'threads': threads, 'schedule': list(prefix), 'completion_order': list(order), 'status': res.status}
+            if res.hang or res.exc:
+                st.violation('json-labels:hang-or-exception', dict(d, hang=res.hang, exc=res.exc))
+                continue
+            try:
+                doc = _json.loads(res.stdout)
+            except ValueError:
+                st.violation('json-labels:not-one-document', dict(d, stdout=res.stdout[:200]))
+                continue
+            seen = {}
+            for el in doc if isinstance(doc, list) else []:
+                pos = MT.block_host(str(el.get('target'))) if isinstance(el, dict) else None
+                seen.setdefault(pos, []).append(el)
+            for i, a in enumerate(archs):
+                els = seen.get(i, [])
+                if len(els) != 1:
+                    st.violation('json-labels:target-has-%d-elements' % len(els), dict(d, target=i, archetype=a))
+                    continue
+                is_err = 'error' in els[0]
+                if is_err != (a in MT.FAILING):
+                    st.violation('json-labels:element-of-another-target-under-this-label', dict(d, target=i, archetype=a, element_keys=sorted(els[0])[:6]))
+        st.sample({'label_schedules': list(archs), 'threads': threads, 'schedules': n}, cap=4)
+
+
 def run(tier, seed):
     t0 = time.time()
     cs = cases(tier)
@@ -363,6 +402,9 @@ def run(tier, seed):
     par.pmap(work_multi_entry, me if tier != 'quick' else me[::3], stats=st, chunk=8)
     check_direct(st)
     policy_label(st)
+    ls = [(a, th) for a in (('CLEAN', 'REFUSED'), ('REFUSED', 'CLEAN'), ('TERR', 'UNRESOLVABLE'), ('UNRESOLVABLE', 'TERR'), ('GEX4096', 'CLOSEEARLY'), ('CLOSEEARLY', 'GEX4096'),
+                                    ('CLEAN', 'REFUSED', 'TERR'), ('BADBLOCK', 'RSA2048', 'REFUSED')) for th in (2, 3)]
+    par.pmap(work_label_schedules, ls, stats=st, chunk=1)
     # real resolver and real sockets for the forms that can be exercised on loopback without a name service
     vcases = []
     forms = [['-n', '--skip-rate-test', '-t', '1', '127.0.0.1:{port}'], ['-n', '--skip-rate-test', '-t', '1', '-p', '{port}', '127.0.0.1'],
